@@ -657,14 +657,14 @@ Section Main.
 
   (* one generated method body, given a well-behaved recursive call: rfs/wfs are
      the declarations of the struct read / written *)
-  Lemma body_ok to_dir call wpkg racc wacc wpm rp rn wp wn rfs wfs pl s manual :
+  Lemma body_ok to_dir call wpkg racc wacc wpm sn rp rn wp wn rfs wfs pl s manual :
     call_ok e pe to_dir call ->
     lookup_decl e rp rn = Some (DStruct rfs) -> lookup_decl e wp wn = Some (DStruct wfs) ->
     zero_wf e zf (TNamed wp wn) = true ->
     plan_safe e zf pe to_dir rfs wfs pl = true ->
     has_ty e s (TNamed rp rn) ->
     bind (match pl_ctor pl with
-          | Some args => eval_ctor e zf U racc wpm s (zero_val e zf (TNamed wp wn)) args
+          | Some args => eval_ctor e zf U sn racc wpm s (zero_val e zf (TNamed wp wn)) args
           | None => eval_alloc e zf (zero_val e zf (TNamed wp wn)) (pl_alloc pl)
           end)
          (fun d1 => bind (eval_stmts e zf U call wpkg to_dir racc wacc s d1 (pl_stmts pl))
@@ -703,7 +703,7 @@ Section Main.
     destruct (safe_plan tp Itp) as (P1 & _ & (rfs & Lr) & (wfs & Lw) & _ & ZW).
     destruct (has_ty_ptr _ _ _ T) as [->|(s & -> & Ts)]; [discriminate|].
     unfold decl_fields in P1. rewrite Lr, Lw in P1. rewrite <- Etn in Ts.
-    apply (body_ok true (eval_to e zf U pe fuel) PDst (tp_src_acc tp) (tp_dst_acc tp) (tp_dst_ptr tp) PSrc (tp_src tp) PDst (tp_dst tp)
+    apply (body_ok true (eval_to e zf U pe fuel) PDst (tp_src_acc tp) (tp_dst_acc tp) (tp_dst_ptr tp) false PSrc (tp_src tp) PDst (tp_dst tp)
                    rfs wfs (tp_to tp) s (fun d2 => if pl_manual (tp_to tp) then u_manual_to U tn s d2 else d2)); auto.
     intros sn tp' y F' Ty. split.
     - apply IH. exact Ty.
@@ -728,7 +728,7 @@ Section Main.
                 = zero_val e zf (TNamed PSrc (tp_src tp))) by (destruct recv; reflexivity).
     rewrite Z.
     apply (body_ok false (fun n y => eval_from e zf U pe fuel n VNil y) PSrc (tp_dst_acc tp) (tp_src_acc tp) (tp_src_ptr tp)
-                   PDst (tp_dst tp) PSrc (tp_src tp) wfs rfs (tp_from tp) d
+                   (match recv with VNil => true | _ => false end) PDst (tp_dst tp) PSrc (tp_src tp) wfs rfs (tp_from tp) d
                    (fun s2 => if pl_manual (tp_from tp) then u_manual_from U tn d s2 else s2)); auto.
     intros sn tp' y F' Ty. split.
     - eapply IH; eauto.
@@ -749,10 +749,24 @@ Lemma eval_from_nil e zf U pe fuel tn tp recv :
   find_plans pe tn = Some tp -> eval_from e zf U pe (S fuel) tn recv VNil = Ok VNil.
 Proof. intros F. simpl. rewrite F. reflexivity. Qed.
 
+(* FromX does not look at the CONTENT of its receiver ... *)
 Lemma eval_from_receiver e zf U pe fuel tn recv recv' arg :
+  (recv = VNil <-> recv' = VNil) ->
   eval_from e zf U pe fuel tn recv arg = eval_from e zf U pe fuel tn recv' arg.
 Proof.
-  destruct fuel; simpl; auto. destruct (find_plans pe tn); auto. destruct arg; auto.
+  intros H. destruct fuel; simpl; auto. destruct (find_plans pe tn); auto. destruct arg; auto.
+  assert (E : match recv with VNil => true | _ => false end = match recv' with VNil => true | _ => false end).
+  { destruct recv, recv'; auto; destruct H as (H1 & H2); try (specialize (H1 eq_refl); discriminate);
+      try (specialize (H2 eq_refl); discriminate). }
+  rewrite E. destruct recv, recv'; reflexivity.
+Qed.
+
+(* ... and, when the source type has no constructor, not even at whether it is nil *)
+Lemma eval_from_receiver_plain e zf U pe fuel tn tp recv recv' arg :
+  find_plans pe tn = Some tp -> pl_ctor (tp_from tp) = None ->
+  eval_from e zf U pe fuel tn recv arg = eval_from e zf U pe fuel tn recv' arg.
+Proof.
+  intros F C. destruct fuel; simpl; auto. rewrite F. destruct arg; auto. rewrite C.
   destruct recv, recv'; reflexivity.
 Qed.
 
